@@ -76,6 +76,14 @@ def cases(tier, seed):
     yield {"kind": "s1", "t": "string[]", "records": [rs("s/list", [["string[]", "xs"]], ["list(S('x',16))"])]}
     yield {"kind": "s1", "t": "string[]", "records": [rs("s/list", [["string[]", "xs"]], ["list(S('x',65536))"])]}
     yield {"kind": "s1", "t": "varint[]", "records": [rs("s/list", [["varint[]", "xs"]], ["list(range(-5,65540))"])]}
+    # size classes beyond 2**17 elements / 2**15 keys / 2**24 bytes
+    # ("light": judged on the low-level and path channels / the current wire variant only - one such case costs seconds)
+    yield {"kind": "s1", "t": "varint[]", "light": True, "records": [rs("s/list", [["varint[]", "xs"]], ["list(range(131073))"])]}
+    yield {"kind": "s1", "t": "stringlist", "light": True, "records": [rs("s/one", [["stringlist", "x"]], ["list(S('z', 131073))"])]}
+    yield {"kind": "s1", "t": "dictlist", "light": True, "records": [rs("s/one", [["dictlist", "x"]], ["[dict((str(i), i) for i in range(32769))]"])]}
+    if thorough:
+        yield {"kind": "s1", "t": "string", "light": True, "records": [rs("s/one", [["string", "x"]], ["S('x', 17 * 1024 * 1024)"])]}
+        yield {"kind": "s1", "t": "bytes", "light": True, "records": [rs("s/one", [["bytes", "x"]], ["S(b'\\x00', 17 * 1024 * 1024)"])]}
     # S2 pairs of (type, value) atoms incl. a keyword-named field (slow template)
     atoms = PAIR_ATOMS
     for i, (t1, v1) in enumerate(atoms):
